@@ -1,8 +1,38 @@
-import RaftProofs.ProtoReadDefs
+import RaftProofs.ProtoRead
 
 /-!
 # C08 — ReadIndex (Safe mode) is linearizable
-(preliminary: the step obligations; the global theorem is added from RaftProofs/ProtoRead.lean)
+
+Proved here on the abstract protocol P with its read-index layer (`RaftModel/Proto.lean`: the
+application issues a request with a unique context on a node; a leader that has committed an entry of
+its own term registers it with its commit index as read index; nodes confirm heartbeats sent
+afterwards; the leader answers once a deciding quorum — itself included — has confirmed its
+leadership since; the answer is handed out locally or travels back to the issuing node), for
+**every history** (any interleaving, loss / duplication / reordering / delay of any message, stale
+leaders, partitions, crash and restart, leader changes) under a fixed voter configuration with at
+least one voter:
+
+* `C08_linearizable`: every read state ever handed to the application for a request carries an index
+  at least as large as the commit index **every** node had when the request was issued, and it is
+  handed out on the node where the request was issued;
+* `C08_read_state_safe` / `C08_response_safe`: the invariant form (the index covers every leader
+  commit recorded when the request was issued), for read states and for responses still in flight;
+* `C08_read_state_obligation`: what a read state needs, read off the step function.
+
+Why a superseded leader cannot answer: every leader commit of a later term that existed when the
+request was issued was acknowledged durably by a deciding quorum before that moment; the quorum
+that confirms the stale leader's heartbeats after that moment shares a node with it, and that node's
+term can no longer be the stale leader's (`InvRd.hb`, `read_confirmed` in `RaftProofs/ProtoRead.lean`).
+A leader of the right term covers all earlier commits because it must have committed an entry of its
+own term (Leader Completeness, C03) — dropping that condition is exactly finding F9.
+
+The tie to the code: on every simulated history the harness reports each read_index call, each
+registration in `ReadOnly` (with the index the real leader recorded), each heartbeat response that
+carries a context, each `MsgReadIndexResp` and each `ReadState` to P, whose step function must accept
+them; the C08 monitor compares every read state with the highest commit index of any node at the
+time of the call.  Node-local parts (`readIndex_requires_own_term_commit`, queue handling) are
+covered by the node model (`RaftProps/RN.lean`).  Histories with membership changes: trace validation
+and monitor only (F9 was such a history).
 -/
 namespace RaftProps.C08
 open RaftModel.P
@@ -32,5 +62,99 @@ theorem C08_read_state_obligation (s s' : PSys) (j rid idx : Nat) (cfg : Cfg)
       · cases hrd
     · cases hrd
   · cases h
+
+/-- a request is registered only by a node in the leader role that has committed an entry of its own
+term, with its commit index as read index -/
+theorem C08_registration_obligation (s s' : PSys) (i rid : Nat)
+    (h : applyEvent s (.read (.start i rid)) = .ok s') :
+    (s.nodes i).role = 2 ∧ 0 < (s.nodes i).commit ∧
+    termAt (s.nodes i).log (s.nodes i).commit = (s.nodes i).term ∧
+    s'.rd.started = ⟨rid, i, (s.nodes i).term, (s.nodes i).commit⟩ :: s.rd.started := by
+  simp only [applyEvent, applyRead, ok] at h
+  split at h
+  · rename_i rd hrd
+    split at hrd
+    · rename_i hg
+      cases hrd; cases h
+      exact ⟨hg.2.1, hg.2.2.2.1, hg.2.2.2.2, rfl⟩
+    · cases hrd
+  · cases h
+
+/-- invariant form: every read state handed out goes to the issuing node and covers every leader
+commit that existed when the request was issued -/
+theorem C08_read_state_safe (c0 : Cfg) (hne : c0.incoming ≠ [] ∨ c0.outgoing ≠ []) (s : PSys)
+    (hr : ReachC c0 s) (d : ReadResp) (hd : d ∈ s.rd.done) : SafeAnswer s d :=
+  read_done_safe c0 hne s hr d hd
+
+/-- the same for responses still travelling to the issuing node -/
+theorem C08_response_safe (c0 : Cfg) (hne : c0.incoming ≠ [] ∨ c0.outgoing ≠ []) (s : PSys)
+    (hr : ReachC c0 s) (d : ReadResp) (hd : d ∈ s.rd.resps) : SafeAnswer s d :=
+  read_resp_safe c0 hne s hr d hd
+
+theorem reach_run (c0 : Cfg) : ∀ (es : List Event) (s s' : PSys), ReachC c0 s → (∀ e ∈ es, e.cfgOk c0) →
+    run s es = .ok s' → ReachC c0 s' := by
+  intro es
+  induction es with
+  | nil => intro s s' hr _ h; simp only [run] at h; cases h; exact hr
+  | cons e es ih =>
+    intro s s' hr hc h
+    simp only [run] at h
+    split at h
+    · rename_i s1 h1
+      exact ih s1 s' (.step e hr (hc e List.mem_cons_self) h1) (fun x hx => hc x (List.mem_cons_of_mem _ hx)) h
+    · cases h
+
+/-- **Linearizability of Safe ReadIndex.**  Take any reachable state `s0`, issue request `rid` on node
+`i`, continue the history in any way; if a read state for `rid` is ever handed to the application, it
+is handed out on node `i` and its index is at least the commit index that every node had in `s0`. -/
+theorem C08_linearizable (c0 : Cfg) (hne : c0.incoming ≠ [] ∨ c0.outgoing ≠ []) (s0 s1 s2 : PSys)
+    (hr : ReachC c0 s0) (i rid : Nat) (hissue : applyEvent s0 (.read (.issue i rid)) = .ok s1)
+    (es : List Event) (hes : ∀ e ∈ es, e.cfgOk c0) (hrun : run s1 es = .ok s2)
+    (d : ReadResp) (hd : d ∈ s2.rd.done) (hrid : d.rid = rid) :
+    d.to = i ∧ ∀ j, (s0.nodes j).commit ≤ d.idx := by
+  have hr1 : ReachC c0 s1 := ReachC.step (.read (.issue i rid)) hr (by simp [Event.cfgOk]) hissue
+  have hr2 := reach_run c0 es s1 s2 hr1 hes hrun
+  have hRd := invRd_reach c0 hne s2 hr2
+  obtain ⟨r', hr'mem, hr'rid, hr'node, hcover⟩ := read_done_safe c0 hne s2 hr2 d hd
+  obtain ⟨r, _, hrrid, hrnode, hcm, _, huniq⟩ := issue_records_forever s0 s1 s2 i rid es hissue hrun hRd
+  have he : r' = r := huniq r' hr'mem (hr'rid.trans hrid)
+  subst he
+  refine ⟨hr'node.symm.trans hrnode, ?_⟩
+  intro j
+  by_cases h0 : (s0.nodes j).commit = 0
+  · omega
+  · obtain ⟨p, hp, h1, _⟩ := commit_within_leader_commit (invAll_reach c0 hne s0 hr).c j (by omega)
+    have := hcover p (by rw [hcm]; exact hp)
+    omega
+
+/-- the statement with the voter configuration changing along the history — not proved (finding F9,
+repaired, was a violation of it: a leader removed from the configuration answered alone) -/
+def C08_full_statement : Prop :=
+  ∀ (s0 s1 s2 : PSys), Reach s0 → ∀ i rid, applyEvent s0 (.read (.issue i rid)) = .ok s1 →
+    ∀ es, run s1 es = .ok s2 → ∀ d ∈ s2.rd.done, d.rid = rid → d.to = i ∧ ∀ j, (s0.nodes j).commit ≤ d.idx
+
+/-! ### non-vacuity: a follower's read is answered by the leader after a heartbeat round, with the
+leader's commit index; a leader that has not committed in its term cannot register a request -/
+
+def c3 : Cfg := ⟨[1, 2, 3], []⟩
+def e1 : LEntry := ⟨1, 0, 7⟩
+
+def hist : List Event :=
+  [.bump 1 1, .campaign 1, .rdy 1, .persist 1 1, .release 1 (.grant 1 1 1 {}), .release 1 (.voteReq 1 1 0 0),
+   .bump 2 1, .grant 2 1, .rdy 2, .persist 2 1, .release 2 (.grant 1 2 1 {}), .win 1 c3 [1, 2],
+   .leaderAppend 1 e1, .ackSelf 1 1, .rdy 1, .persist 1 1, .release 1 (.ack 1 1 1 []), .sendApp 1 ⟨1, 1, 0, 0, [e1], 0⟩,
+   .recvApp 2 ⟨1, 1, 0, 0, [e1], 0⟩, .rdy 2, .persist 2 1, .release 2 (.ack 1 2 1 []),
+   .commitLeader 1 1 c3 [1, 2],
+   .read (.issue 2 77), .read (.start 1 77), .read (.hback 2), .read (.resp 1 77 1 c3), .read (.rstate 2 77 1 c3)]
+
+example : (match run init hist with | .ok s => s.rd.done | .error _ => []) = [⟨77, 2, 1⟩] := by decide
+
+/-- before its first own-term commit the leader cannot register the request -/
+example : (match run init (hist.take 22 ++ [.read (.issue 2 77), .read (.start 1 77)]) with
+    | .ok _ => "registered" | .error _ => "refused") = "refused" := by decide
+
+/-- without a confirmation from a second node the leader cannot answer -/
+example : (match run init (hist.take 25 ++ [.read (.resp 1 77 1 c3)]) with
+    | .ok _ => "answered" | .error _ => "refused") = "refused" := by decide
 
 end RaftProps.C08
